@@ -607,6 +607,14 @@ def parse_template(path):
                 with open(inc) as f2:
                     process(f2.read().split('\n'), inc)
                 continue
+            if d.startswith('shellcheck '):
+                # //@shellcheck <file under vx/> :: <item path>   - see render_shellcheck
+                if cur is not None:
+                    raise Undecided('%s: shellcheck inside extract block' % origin)
+                flush()
+                parts = [p_.strip() for p_ in d[len('shellcheck '):].split(' :: ')]
+                chunks.append(('shellcheck', {'file': parts[0], 'path': parts[1:]}))
+                continue
             if d.startswith('extract '):
                 flush()
                 spec = d[len('extract '):]
@@ -1034,6 +1042,96 @@ def render_extract(ex, vac=False, strip_proof=False):
 LABEL_RE = re.compile(r'//#\s*([A-Za-z0-9_.\-]+)')
 
 
+def split_params(text):
+    """split a parameter list at top-level commas"""
+    res, depth, cur = [], 0, ''
+    for ch in text:
+        if ch in '([{<':
+            depth += 1
+        elif ch in ')]}>':
+            depth -= 1
+        if ch == ',' and depth == 0:
+            res.append(cur)
+            cur = ''
+        else:
+            cur += ch
+    if cur.strip():
+        res.append(cur)
+    return [r.strip() for r in res if r.strip()]
+
+
+def render_shellcheck(sc):
+    """The contract of a trusted shell that stands in (in other units) for a function verified in THIS unit is proved from that
+    function's verified contract: emits `fn <name>__shellcheck(<params of the shell>) <requires/ensures of the shell> { <call of the
+    verified function> }`. The shell text is read from the file the other units include, so the two cannot drift apart unnoticed."""
+    path = os.path.join(VXDIR, sc['file'])
+    with open(path) as f:
+        src = f.read()
+    try:
+        item, toks = find_path(src, sc['path'])
+    except (AnchorError, LexError) as e:
+        raise Undecided('shellcheck: %s in %s' % (e, sc['file']))
+    if item.kind != 'fn' or item.body_open is None:
+        raise Undecided('shellcheck: %r is not a fn with a body' % (sc['path'],))
+    # header: from the `fn`/`async fn` keyword to the body
+    i = item.start_tok
+    while not (toks[i][0] == 'id' and toks[i][1] in ('fn', 'async')):
+        i += 1
+    header = src[toks[i][2]:toks[item.body_open][2]]
+    is_async = toks[i][1] == 'async'
+    name = item.name
+    m = re.search(r'\bfn\s+' + re.escape(name) + r'\b', header)
+    hdr = header[:m.start()] + 'fn ' + name + '__shellcheck' + header[m.end():]
+    # parameter list: first '(' after the name and optional generics
+    k = m.end() - m.start() + header[:m.start()].__len__()
+    j = header.index(name, m.start()) + len(name)
+    depth = 0
+    while j < len(header):
+        if header[j] == '<':
+            depth += 1
+        elif header[j] == '>':
+            depth -= 1
+        elif header[j] == '(' and depth == 0:
+            break
+        j += 1
+    po = j
+    depth = 0
+    while j < len(header):
+        if header[j] in '([{':
+            depth += 1
+        elif header[j] in ')]}':
+            depth -= 1
+            if depth == 0:
+                break
+        j += 1
+    params = split_params(header[po + 1:j])
+    args, recv = [], None
+    for prm in params:
+        if re.fullmatch(r"(&\s*('[a-z_]+\s+)?(mut\s+)?)?self", prm):
+            recv = 'self'
+            continue
+        nm = prm.split(':', 1)[0].strip()
+        nm = re.sub(r'^mut\s+', '', nm)
+        args.append(nm)
+    call = ('self.%s(%s)' % (name, ', '.join(args))) if recv else ('Self::%s(%s)' % (name, ', '.join(args)))
+    if is_async:
+        call += '.await'
+    label = 'shellsync.' + '.'.join(re.sub(r'^[a-z]+\s+', '', seg).replace(' ', '') for seg in sc['path'])
+    lines = hdr.rstrip().split('\n')
+    seen = False
+    out = []
+    for ln in lines:
+        if re.search(r'\b(requires|ensures)\b', ln):
+            seen = seen or bool(re.search(r'\bensures\b', ln))
+        if seen and ln.strip() and '//#' not in ln:
+            ln = ln + ' //# ' + label
+        out.append(ln)
+    text = '    /// shell contract of vx/%s :: %s, proved from the function verified in this unit\n    %s\n    { %s }\n' % (sc['file'], ' :: '.join(sc['path']), '\n'.join(out).strip(), call)
+    meta = {'name': name + '__shellcheck', 'kind': 'shellcheck', 'file': 'vx/' + sc['file'], 'path': ' :: '.join(sc['path']), 'line': src[:toks[item.start_tok][2]].count('\n') + 1,
+            'sha256': hashlib.sha256(src[toks[item.start_tok][2]:toks[item.end_tok][3]].encode()).hexdigest()[:16], 'label': label}
+    return text, meta
+
+
 def build_unit(tpl_path, out_path, with_vac=True):
     chunks = parse_template(tpl_path)
     out = []
@@ -1049,6 +1147,14 @@ def build_unit(tpl_path, out_path, with_vac=True):
     for kind, c in chunks:
         if kind == 'text':
             emit(c)
+            continue
+        if kind == 'shellcheck':
+            text, meta = render_shellcheck(c)
+            s = line
+            emit('// ---- shell contract check: %s :: %s (line %d, sha256 %s) ----\n' % (meta['file'], meta['path'], meta['line'], meta['sha256']))
+            emit(text)
+            regions.append({'name': meta['name'], 'kind': 'shellcheck', 'start': s, 'end': line - 1, 'item_kind': 'fn', 'src': '%s:%d' % (meta['file'], meta['line'])})
+            extraction_log.append(meta)
             continue
         text, log, meta = render_extract(c, vac=False)
         s = line
@@ -1206,6 +1312,10 @@ def classify(gen, res):
         if reg is None:
             other.append({'kind': 'spec-failure', 'message': msg, 'function': None, 'rendered': d.get('rendered')})
             continue
+        if reg['kind'] == 'shellcheck':
+            # the verified contract no longer implies the contract of the shell other units rely on: machinery inconsistency, never an alarm
+            other.append({'kind': 'spec-failure', 'message': 'shell contract %s is not implied by the verified contract: %s' % (reg['name'], msg), 'function': reg['name'], 'rendered': d.get('rendered')})
+            continue
         if reg['kind'] == 'vac':
             if 'VACUITY' in labs:
                 vac_hit.add(reg['name'])
@@ -1248,6 +1358,11 @@ def count_obligations(gen):
                 obs.append((r['name'], lab))
                 n += 1
         obs.append((r['name'], r['name'] + '.body-safety'))
+    for r in gen['regions']:
+        if r['kind'] == 'shellcheck':
+            labs = sorted(set(lab for ln, lab in gen['labels'].items() if r['start'] <= ln <= r['end']))
+            for lab in labs:
+                obs.append((r['name'], lab))
     if not obs:
         # lemma-only unit: every verified (non external_body) proof fn is an obligation
         lines = gen['text'].split('\n')
